@@ -69,22 +69,30 @@ impl Config {
     }
 }
 
-/// Key of one deal: (t, r, combo index per player) packed, t < r deck positions.
+/// Key of one deal: (t, r, combo index per player) packed into 128 bits, t < r deck positions.
+/// Player i takes as many bits as its range size needs (none for a single-combo range), so that
+/// tables of many players with tiny ranges fit as well as a few players with full ranges.
 pub type DealKey = u128;
+pub fn key_widths(cfg: &Config) -> Vec<u8> {
+    let w: Vec<u8> = cfg.ranges.iter().map(|r| (usize::BITS - r.combos.len().saturating_sub(1).leading_zeros()) as u8).collect();
+    assert!(12 + w.iter().map(|x| *x as u32).sum::<u32>() <= 128, "harness: deal key does not fit into 128 bits for range sizes {:?}", cfg.ranges.iter().map(|r| r.combos.len()).collect::<Vec<_>>());
+    w
+}
 #[inline]
-pub fn deal_key(t: u8, r: u8, combos: &[u16]) -> DealKey {
+pub fn deal_key(t: u8, r: u8, combos: &[u16], widths: &[u8]) -> DealKey {
     let mut k: u128 = (t as u128) << 6 | r as u128;
-    for c in combos {
-        k = k << 11 | *c as u128;
+    for (c, w) in combos.iter().zip(widths.iter()) {
+        k = k << *w | *c as u128;
     }
     k
 }
-pub fn unpack_key(k: DealKey, n: usize) -> (u8, u8, Vec<u16>) {
+pub fn unpack_key(k: DealKey, widths: &[u8]) -> (u8, u8, Vec<u16>) {
     let mut k = k;
+    let n = widths.len();
     let mut cs = vec![0u16; n];
     for i in (0..n).rev() {
-        cs[i] = (k & 0x7ff) as u16;
-        k >>= 11;
+        cs[i] = (k & ((1u128 << widths[i]) - 1)) as u16;
+        k >>= widths[i];
     }
     ((k >> 6) as u8 & 0x3f, (k & 0x3f) as u8, cs)
 }
@@ -99,6 +107,7 @@ pub struct Deal {
 pub fn model_deals(cfg: &Config, from: (u8, u8), to: (u8, u8), out: &mut Vec<Deal>, blocked_by_players: &mut u64) {
     let deck = deck49(&cfg.flop);
     let n = cfg.ranges.len();
+    let widths = key_widths(cfg);
     let mut chosen = vec![0u16; n];
     for t in 0..48u8 {
         for r in (t + 1)..49u8 {
@@ -123,16 +132,16 @@ pub fn model_deals(cfg: &Config, from: (u8, u8), to: (u8, u8), out: &mut Vec<Dea
                 })
                 .collect();
             if n == 0 {
-                out.push(Deal { key: deal_key(t, r, &[]), prob: 1.0 });
+                out.push(Deal { key: deal_key(t, r, &[], &widths), prob: 1.0 });
                 continue;
             }
             if live.iter().any(|l| l.is_empty()) {
                 continue;
             }
             // odometer over live combos with pairwise distinctness
-            fn rec(cfg: &Config, live: &[Vec<u16>], p: usize, used: u64, prob: f64, chosen: &mut Vec<u16>, t: u8, r: u8, out: &mut Vec<Deal>, blocked: &mut u64) {
+            fn rec(cfg: &Config, widths: &[u8], live: &[Vec<u16>], p: usize, used: u64, prob: f64, chosen: &mut Vec<u16>, t: u8, r: u8, out: &mut Vec<Deal>, blocked: &mut u64) {
                 if p == live.len() {
-                    out.push(Deal { key: deal_key(t, r, chosen), prob });
+                    out.push(Deal { key: deal_key(t, r, chosen, widths), prob });
                     return;
                 }
                 for &ci in &live[p] {
@@ -145,10 +154,10 @@ pub fn model_deals(cfg: &Config, from: (u8, u8), to: (u8, u8), out: &mut Vec<Dea
                         continue;
                     }
                     chosen[p] = ci;
-                    rec(cfg, live, p + 1, used | m, prob * c.2 as f64, chosen, t, r, out, blocked);
+                    rec(cfg, widths, live, p + 1, used | m, prob * c.2 as f64, chosen, t, r, out, blocked);
                 }
             }
-            rec(cfg, &live, 0, 0, 1.0, &mut chosen, t, r, out, blocked_by_players);
+            rec(cfg, &widths, &live, 0, 0, 1.0, &mut chosen, t, r, out, blocked_by_players);
         }
     }
 }
@@ -165,8 +174,8 @@ pub struct ShRec {
     pub winner_len: u8,
 }
 impl ShRec {
-    pub fn key(&self) -> DealKey {
-        deal_key(self.t.min(self.r), self.t.max(self.r), &self.combos)
+    pub fn key(&self, widths: &[u8]) -> DealKey {
+        deal_key(self.t.min(self.r), self.t.max(self.r), &self.combos, widths)
     }
 }
 
@@ -274,7 +283,7 @@ pub fn drain_with(cfg: &Config, players: &Vec<HandRange>, limit: usize) -> Resul
 }
 
 pub fn describe_key(cfg: &Config, k: DealKey) -> String {
-    let (t, r, cs) = unpack_key(k, cfg.ranges.len());
+    let (t, r, cs) = unpack_key(k, &key_widths(cfg));
     let deck = deck49(&cfg.flop);
     format!(
         "turn {} (pos {}), river {} (pos {}), hole cards {}",
@@ -490,6 +499,12 @@ impl Translator {
             put(cid_of(&hc[1]) as u64);
             put(p.hand().power_index() as u64);
             put(p.is_winner() as u64);
+            for c in p.cards().iter() {
+                put(cid_of(c) as u64);
+            }
+            for c in p.board().iter() {
+                put(cid_of(c) as u64 + 64);
+            }
         }
         put(s.winner_len() as u64);
         put(s.probability().to_bits() as u64);
@@ -546,4 +561,47 @@ pub fn run_seq(cfg: &Config, limit: usize, extra_next: usize) -> Result<Seq, Fai
         }
     }
     Ok(out)
+}
+
+/// n single-combo players holding pairwise disjoint cards, except that seat j shares exactly one
+/// card with seat i (i < j): no deal is legal.  With `also_clean`, a second combo is added to seat j
+/// that is disjoint from everybody, so that legal deals exist and only the colliding combo is blocked.
+pub fn one_overlap_config() -> impl Strategy<Value = Config> {
+    (flop_strategy(), 2usize..=23, any::<u64>(), any::<bool>(), 0u8..4).prop_map(|(flop, n, seed, also_clean, bias)| {
+        let mut deck: Vec<u8> = (0..52u8).filter(|c| !flop.contains(c)).collect();
+        let mut x = mix64(seed);
+        for i in (1..deck.len()).rev() {
+            x = mix64(x);
+            deck.swap(i, (x % (i as u64 + 1)) as usize);
+        }
+        let n = n.min((deck.len() - 2) / 2);
+        let mut ranges: Vec<RangeSpec> = (0..n)
+            .map(|k| {
+                let p = norm_pair(deck[2 * k], deck[2 * k + 1]);
+                RangeSpec { combos: vec![(p.0, p.1, 1.0)] }
+            })
+            .collect();
+        x = mix64(x);
+        // i < j; bias 0: any two seats, 1: the last two seats, 2: first and last, 3: two late seats
+        let (i, j) = match bias {
+            1 => (n - 2, n - 1),
+            2 => (0, n - 1),
+            3 if n >= 4 => (n - 1 - (1 + (x % 2) as usize), n - 1),
+            _ => {
+                let a = (x % n as u64) as usize;
+                let b = ((x >> 16) % n as u64) as usize;
+                if a == b {
+                    (a.min(n - 2), a.min(n - 2) + 1)
+                } else {
+                    (a.min(b), a.max(b))
+                }
+            }
+        };
+        let shared = deck[2 * i];
+        let other = deck[2 * j + 1];
+        let p = norm_pair(shared, other);
+        let clean = ranges[j].combos[0];
+        ranges[j].combos = if also_clean { vec![(p.0, p.1, 0.5), clean] } else { vec![(p.0, p.1, 0.5)] };
+        Config { flop, ranges, scope: None }
+    })
 }
